@@ -257,6 +257,13 @@ thread_local! {
     pub static VERIF_PARSE_CALLS: std::cell::Cell<u64> = const { std::cell::Cell::new(0) };
 }
 
+// Verification hook: the number of calls of the passes that run over the parsed term afterwards
+// (re-association, variable resolution, the definition-order check) on this thread.
+#[cfg(feature = "verif")]
+thread_local! {
+    pub static VERIF_PASS_CALLS: std::cell::Cell<u64> = const { std::cell::Cell::new(0) };
+}
+
 // This macro should be called at the beginning of every parsing function to do a cache lookup and
 // return early on cache hit. It returns the cache key for use by subsequent macro invocations.
 macro_rules! cache_check {
@@ -603,6 +610,9 @@ fn collect_error_factories<'a>(error_factories: &mut Vec<ErrorFactory<'a>>, term
 // Flip the associativity of applications from right to left.
 #[allow(clippy::too_many_lines)]
 fn reassociate_applications<'a>(acc: Option<Term<'a>>, term: &Term<'a>) -> Term<'a> {
+    #[cfg(feature = "verif")]
+    VERIF_PASS_CALLS.with(|calls| calls.set(calls.get() + 1));
+
     // In every case except the application case, if we have a value for the accumulator, we want
     // to construct an application with the accumulator as the applicand and the reduced term as
     // the argument. In the application case, we build up the accumulator.
@@ -833,6 +843,9 @@ fn reassociate_products_and_quotients<'a>(
     acc: Option<(Term<'a>, ProductOrQuotient)>,
     term: &Term<'a>,
 ) -> Term<'a> {
+    #[cfg(feature = "verif")]
+    VERIF_PASS_CALLS.with(|calls| calls.set(calls.get() + 1));
+
     // In every case except the product and quotient cases, if we have a value for the accumulator,
     // we want to construct a product or quotient with the accumulator as the left subterm and the
     // reduced term as the right subterm. In the product and quotient cases, we build up the
@@ -1118,6 +1131,9 @@ fn reassociate_sums_and_differences<'a>(
     acc: Option<(Term<'a>, SumOrDifference)>,
     term: &Term<'a>,
 ) -> Term<'a> {
+    #[cfg(feature = "verif")]
+    VERIF_PASS_CALLS.with(|calls| calls.set(calls.get() + 1));
+
     // In every case except the sum and difference cases, if we have a value for the accumulator,
     // we want to construct a sum or difference with the accumulator as the left subterm and the
     // reduced term as the right subterm. In the sum and difference cases, we build up the
@@ -1399,6 +1415,9 @@ fn resolve_variables<'a>(
     context: &mut HashMap<&'a str, usize>,
     errors: &mut Vec<Error>,
 ) -> term::Term<'a> {
+    #[cfg(feature = "verif")]
+    VERIF_PASS_CALLS.with(|calls| calls.set(calls.get() + 1));
+
     match &term.variant {
         Variant::ParseError => {
             // This should be unreachable due to [ref:error_check].
@@ -2005,6 +2024,9 @@ fn check_definitions<'a>(
     depth: usize,
     errors: &mut Vec<Error>,
 ) {
+    #[cfg(feature = "verif")]
+    VERIF_PASS_CALLS.with(|calls| calls.set(calls.get() + 1));
+
     match &term.variant {
         term::Variant::Type
         | term::Variant::Variable(_, _)
@@ -2095,6 +2117,9 @@ fn check_definition<'a>(
     visited: &mut HashSet<usize>,
     errors: &mut Vec<Error>,
 ) {
+    #[cfg(feature = "verif")]
+    VERIF_PASS_CALLS.with(|calls| calls.set(calls.get() + 1));
+
     // Collect the free variables of the definition.
     let mut variables = HashSet::new();
     free_variables(&definitions[current_index].2, 0, &mut variables);
